@@ -10,7 +10,7 @@ Import ListNotations.
 Open Scope Z_scope.
 
 Definition gpred (f : string) (args : list val) : val :=
-  if String.eqb f "append" then match args with [VL a; VL b] => VL (a ++ b) | _ => VZ 0 end
+  if String.eqb f "append..." then match args with [VL a; VL b] => VL (a ++ b) | _ => VZ 0 end
   else if String.eqb f "make" then VL []
   else if String.eqb f "len" then match args with [VL l] => VZ (Z.of_nat (List.length l)) | _ => VZ 0 end
   else if String.eqb f "concat" then match args with [VS a; VS b] => VS (a ++ b) | _ => VZ 0 end
